@@ -542,7 +542,7 @@ func init() {
 	vc.Register(&vc.Check{
 		ID: "C03", Level: "exploration",
 		Rule: "subjects: Parse(+String) of every exported message type x header version {2013,2019} x the five dialects for 0x1210/0x9208, 0x0200 with the five vendor extension parsers installed, jt808 Decode, jt1078 Decode. Per subject: " +
-			"(a) ALL byte strings of length 0..6 over {00,01,02,FF} and 0..4 over a 10-symbol alphabet of counts and item/parameter IDs; (b) after EVERY truncation point of every seed body, all suffixes of length 0..2 (thorough 3) over {00,01,02,05,31,FF}; " +
+			"(0) every seed body on a fresh receiver before and after the whole run (state outside the receiver); (a) ALL byte strings of length 0..6 over {00,01,02,FF} and 0..4 over a 10-symbol alphabet of counts and item/parameter IDs; (b) after EVERY truncation point of every seed body, all suffixes of length 0..2 (thorough 3) over {00,01,02,05,31,FF}; " +
 			"(c) for every seed: every single-byte substitution by a 25-value menu of boundary values, counts and item IDs (thorough: all 256 values), every pair of substitutions from {00,01,FF} at positions where a single substitution changed the outcome (found by the run), every extension by 1..3 bytes; " +
 			"(d) history independence: every ordered pair (and every triple of a 5-body menu) of seed/mutated bodies on one receiver compared with a fresh receiver. Each case runs on an exact-capacity slice and on two buffers with differently poisoned tails. " +
 			"Seeds are the valid bodies found in the repository's own test files plus harness samples. Non-trivial = the body parses successfully or differs from a seed in <=2 bytes",
@@ -604,6 +604,34 @@ func c03Run(ctx *vc.Ctx, rep *vc.Report) {
 	}
 	sfx := newStrSpace([]byte{0x00, 0x01, 0x02, 0x05, 0x31, 0xFF}, sfxLen)
 	buf := make([]byte, 0, 16)
+	// outcome of every seed body on a fresh receiver BEFORE anything else was parsed in this process; compared with the
+	// outcome AFTER the whole family ran (state kept outside the receiver - a package-level cache or scratch buffer -
+	// would make the later outcome depend on earlier parses although the receiver is fresh)
+	type seedOut struct{ err, dump string }
+	before := map[string]seedOut{}
+	for si := range subs {
+		s := &subs[si]
+		for k, seed := range s.Seeds {
+			o := c03Run1(s, s.New(), exact(seed), false)
+			before[fmt.Sprintf("%s#%d", s.Name, k)] = seedOut{o.err + o.panic, o.dump}
+		}
+	}
+	defer func() {
+		if ctx.Worker != 0 && ctx.Worker != ctx.NWorkers-1 {
+			return
+		}
+		for si := range subs {
+			s := &subs[si]
+			for k, seed := range s.Seeds {
+				o := c03Run1(s, s.New(), exact(seed), false)
+				b := before[fmt.Sprintf("%s#%d", s.Name, k)]
+				rep.Evaluations++
+				if (o.err+o.panic) != b.err || o.dump != b.dump {
+					rep.Add(c03Type(s.Name)+":process-state", fmt.Sprintf("a FRESH receiver gives a different outcome for %s body=%s after the other parses of this run than before them: state outside the receiver\n before: %s %s\n after:  %s %s", s.Name, hx(seed), b.err, c03Short(b.dump), o.err+o.panic, c03Short(o.dump)), "c03", c03Case{Subject: s.Name, Body: hx2(seed)})
+				}
+			}
+		}
+	}()
 	for si := range subs {
 		s := &subs[si]
 		forceMine := false
